@@ -32,7 +32,7 @@ pub fn gen_patcfg(t: &mut Tape, o: &ReOpts) -> PatCfg {
     for _ in 0..npat {
         if fixed {
             let n = 1 + t.small(4);
-            let s: String = (0..n).map(|_| *t.pick(&["a", "b", "c", ".", "*", "A", "(", "é", "x", "\\", "[", "+"])).collect();
+            let s: String = (0..n).map(|_| *t.pick(&["a", "b", "c", ".", "*", "A", "(", "é", "x", "\\", "[", "+", "É", "Δ"])).collect();
             patterns.push(s);
         } else {
             patterns.push(gen::gen_re(t, o).render());
@@ -114,6 +114,18 @@ fn reported(events: &[Event], lines: &[model::Line]) -> Result<(Vec<bool>, Vec<b
 }
 
 pub fn check(case: &Case) -> Verdict {
+    let v = check_inner(case);
+    if let Verdict::Fail(_) = &v {
+        // attribute failures on inputs where the regex engine contradicts itself
+        if let (Ok(m), Ok(o)) = (case.pat.build(), oracle::build(&case.pat)) {
+            let term = case.pat.term;
+            return crate::mat::attribute_engine(v, &m, Some(&o.re), &case.input.0, term.byte(), term == Term::Crlf);
+        }
+    }
+    v
+}
+
+fn check_inner(case: &Case) -> Verdict {
     let matcher = match case.pat.build() {
         Ok(m) => m,
         Err(_) => return Verdict::Reject("builder rejected the pattern"),
@@ -194,6 +206,14 @@ pub fn check(case: &Case) -> Verdict {
                         ))
                         .fact(format!("path:{}", if passthru { "slow" } else { "fast-or-selected" }))
                         .fact(format!("term:{term:?}"));
+                        {
+                            let cs = lines[i].start;
+                            if !passthru && crate::mat::engine_inconsistent_on_line(&matcher, input, cs, cs + content.len()) {
+                                f = f.fact("regex-engine-inconsistent-across-start-offsets").fact("fast-path-only");
+                                known_shape_fail.get_or_insert(f);
+                                continue;
+                            }
+                        }
                         if inline_crlf && content.last() == Some(&b'\r') && !passthru {
                             f = f.fact("inline-crlf-flag-without-crlf-mode").fact("line-content-ends-with-CR").fact("fast-path-only");
                             known_shape_fail.get_or_insert(f);
@@ -234,6 +254,9 @@ pub fn check(case: &Case) -> Verdict {
                 if inline_crlf && content.last() == Some(&b'\r') {
                     continue; // likewise
                 }
+                if crate::mat::engine_inconsistent_on_line(&matcher, input, lines[i].start, lines[i].start + content.len()) {
+                    continue; // likewise (regex engine inconsistency)
+                }
                 return Verdict::Fail(Fail::new(format!(
                     "runs disagree on line {}: {} -> {:?} vs {} -> {:?}\n patterns={:?} pat={:?} invert={} input={:?}",
                     i + 1, w[0].0, w[0].1, w[1].0, w[1].1, case.pat.patterns, case.pat, case.invert, case.input
@@ -268,6 +291,8 @@ pub fn check(case: &Case) -> Verdict {
                     None
                 } else if inline_crlf && content.last() == Some(&b'\r') {
                     None
+                } else if crate::mat::engine_inconsistent_on_line(&matcher, input, lines[i].start, lines[i].start + content.len()) {
+                    None
                 } else {
                     expect[i]
                 }
@@ -286,6 +311,13 @@ pub fn check(case: &Case) -> Verdict {
     info.class_if(case.pat.patterns.len() > 1, "multi_pattern");
     info.class_if(case.invert, "invert");
     info.class_if(case.pat.case == CaseMode::Smart && orc.case_insensitive, "smart_case_insensitive");
+    info.class_if(
+        case.pat.case == CaseMode::Smart
+            && !orc.case_insensitive
+            && case.pat.patterns.iter().all(|p| !p.chars().any(|c| c.is_ascii_uppercase()))
+            && case.pat.patterns.iter().any(|p| p.chars().any(|c| !c.is_ascii() && c.is_uppercase())),
+        "smart_case_sensitive_by_non_ascii_uppercase",
+    );
     info.class_if(term == Term::Crlf, "crlf");
     info.class_if(term == Term::Nul, "null_data");
     info.class_if(verdicts.iter().any(|v| *v == LineVerdict::Ambiguous), "crlf_ambiguous_line_skipped");
